@@ -126,10 +126,13 @@ PROPS["C10"] = dict(
           "on the step grid proved for step 1) and Float distributions (upper bound in every branch, lower bound except "
           "exp(log(.)) of log floats); IntDistribution/FloatDistribution containment and value conversions meet their "
           "contracts. Discharged by z3 for all inputs under the exact-real float model; stepped floats, general int "
-          "steps, log floats and huge ints: BOUNDED lattice stand-in.",
-    note="Trial._suggest and the samplers' own sampling code are not yet under contract; exact-real float model",
+          "steps, log floats and huge ints: BOUNDED lattice stand-in. Trial._suggest: a re-suggested name returns the stored "
+          "value and writes nothing; a fixed (enqueued) value wins verbatim; otherwise the value lies in the distribution "
+          "(abstract contains) and what is written to the storage is its internal representation. Trial.suggest_int / "
+          "suggest_float (no step) at the user API: a freshly suggested value lies in [low, high] (and on the int step grid).",
+    note="the samplers' own sampling code is not under contract (sampler interface contract assumed); exact-real float model",
     assumptions=_NUM_ASSUME,
-    not_covered=["TPE/GP/NSGA/QMC samplers' sampling code (numpy)", "Trial._suggest glue (pending)",
+    not_covered=["TPE/GP/NSGA/QMC samplers' sampling code (numpy)", "suggest_categorical and stepped suggest_float at the API level",
                  "log-float lower bound (exp(log(low)) may undershoot by a few ulps: allowed by the statement)"],
 )
 
@@ -247,6 +250,12 @@ def _rel_all(pid, contract, ob):
 
 
 PROPS["C04"]["modules"] = PROPS["C04"]["modules"] + ["contracts.queue"]
+PROPS["C10"]["modules"] = PROPS["C10"]["modules"] + ["contracts.queue"]           # user-facing suggest_int / suggest_float
+PROPS["C10"]["assumptions"] = PROPS["C10"]["assumptions"] + [
+    "dynamic dispatch made explicit at the user API (contracts/queue.py int_dispatch / float_dispatch): for the distribution "
+    "object suggest_int / suggest_float constructs, `contains` and `to_internal_repr` are the IntDistribution / "
+    "FloatDistribution methods (each proved against that reading under C10/C11)",
+    "int(s) accepted for a string implies float(s) accepted with the same value"]
 PROPS["C03"]["modules"] = PROPS["C03"]["modules"] + ["contracts.grpc_cache"]      # lock discipline of the gRPC client cache
 for _p in ("C01", "C03", "C04", "C20"):
     PROPS[_p]["modules"] = PROPS[_p]["modules"] + ["contracts.journal"]
